@@ -1,2 +1,172 @@
-(* C08: statements only; theorems are added as the model of the anchored mechanism is proved *)
-From GGRS Require Import Base.
+(* C08 (endpoint half) — malformed or foreign packets are dropped without panic or effect.
+   Statements only; every proof is `exact <lemma>` (lemmas in EndpointSafety.v).
+   Model: Endpoint.v (src/network/protocol.rs, correspondence level `endpoint`), current code.
+   The frame conditions (a)-(e) are about [handle_message] (the step of a `msg` operation) and hold for
+   EVERY endpoint state [s], reachable or not, every clock reading, both build profiles [dbg];
+   [eps_wf s] (|peer_connect_status| = num_players) holds in every reachable state (C08_wf_reachable).
+   "Valid traffic continues": a dropped packet is an ordinary step of [EndpointSpec.run], so every invariant
+   proved over [run] (C12_event_grammar, C12_handshake_count, C12_no_early_timer, C18_*, and the
+   reachable-state facts below) holds after it - nothing has to be re-established. *)
+From GGRS Require Import Base Consts TimeSync Codec CodecProofs Endpoint EndpointSpec EndpointProofs EndpointSafety.
+Open Scope Z_scope.
+
+(* (a) another session's magic number, once the peer's magic is known: state unchanged (hence no event,
+   nothing queued, no timer touched) *)
+Theorem C08_foreign_magic_dropped : forall dbg now nonce m s,
+  u_remote_magic s <> 0 -> m_magic m <> u_remote_magic s ->
+  handle_message dbg now nonce m s = Ok s /\ step dbg (OMessage now nonce m) s = Ok (s, []).
+Proof. exact eps_foreign_magic_dropped. Qed.
+
+(* (b) anything but SyncRequest / SyncReply while Initializing or Synchronizing (the repair 376da1c) *)
+Theorem C08_prehandshake_dropped : forall dbg now nonce m s,
+  u_state s = PInitializing \/ u_state s = PSynchronizing -> is_handshake (m_body m) = false ->
+  handle_message dbg now nonce m s = Ok s /\ step dbg (OMessage now nonce m) s = Ok (s, []).
+Proof. exact eps_prehandshake_dropped. Qed.
+
+Theorem C08_shutdown_dropped : forall dbg now nonce m s,
+  u_state s = PShutdown -> handle_message dbg now nonce m s = Ok s.
+Proof. exact eps_shutdown_dropped. Qed.
+
+(* (c) an Input packet with the wrong number of connection statuses (and no disconnect request) or a negative
+   start frame: the result is the state itself if the packet is filtered, else [eps_touch now s]: the code
+   updates last_recv_time and the NetworkResumed bookkeeping before it looks at the body ... *)
+Theorem C08_bad_header_dropped : forall dbg now nonce m st dr sf af bytes s,
+  m_body m = Input st dr sf af bytes ->
+  (dr = false /\ Z.of_nat (length st) <> u_num_players s) \/ sf < 0 ->
+  handle_message dbg now nonce m s = Ok (if passes_filters s m then eps_touch now s else s).
+Proof. exact eps_bad_header_dropped. Qed.
+
+(* ... and [eps_touch] changes exactly three fields (eps_only_touched lists all 32): last_recv_time := now,
+   disconnect_notify_sent := false and one NetworkResumed event iff the endpoint was Running, interrupted and not
+   yet reported Disconnected.  In particular recv_inputs, state, sync progress, peer_connect_status,
+   pending_output, last_acked_input and the send queue (no InputAck) are unchanged and no Input event is queued. *)
+Theorem C08_touch_fields : forall now s, eps_only_touched now s (eps_touch now s).
+Proof. exact eps_touch_fields. Qed.
+
+(* (d) an Input packet with a well-formed header whose payload the codec rejects (decode = Err; by
+   C14_decode_total decode never panics, for ANY byte list): Ok; [eps_header_only] says what differs from [s]:
+   last_recv_time / NetworkResumed as in (c), pop_pending_output(ack_frame), the status merge (or the Disconnected
+   event of a disconnect request); recv_inputs and the send queue are unchanged (no ack), no Input event;
+   running_last_input_recv := now *)
+Theorem C08_undecodable_dropped : forall dbg now nonce m st dr sf af bytes s ref,
+  m_body m = Input st dr sf af bytes -> passes_filters s m = true -> eps_wf s ->
+  dr = true \/ Z.of_nat (length st) = u_num_players s -> 0 <= sf ->
+  alookup (eps_decode_frame s sf) (u_recv_inputs s) = Some ref ->
+  Codec.decode dbg ref bytes = Err ->
+  exists s', handle_message dbg now nonce m s = Ok s' /\
+    eps_header_only now st dr af s s' /\ u_last_input_recv s' = now.
+Proof. exact eps_undecodable_dropped. Qed.
+
+(* (e) a decoded frame [bad] (index j) of the wrong size that is new: the handler returns Ok at the first such
+   frame [bad'] (index |pre| <= j); the result is exactly the state after the accept loop over the frames
+   [pre] before it; no acknowledgement is queued; no Input event carries the offending frame or a later one.
+   The hypothesis on start_frame excludes i32 overflow of the frame numbers (see C08_frame_overflow_panics_refuted). *)
+Theorem C08_wrong_size_dropped : forall dbg now nonce m st dr sf af bytes s ref inputs j bad,
+  m_body m = Input st dr sf af bytes -> passes_filters s m = true -> eps_wf s ->
+  dr = true \/ Z.of_nat (length st) = u_num_players s -> 0 <= sf ->
+  alookup (eps_decode_frame s sf) (u_recv_inputs s) = Some ref ->
+  Codec.decode dbg ref bytes = Ok inputs ->
+  nth_error inputs j = Some bad -> to_player_inputs (length (u_handles s)) bad = None ->
+  sf + Z.of_nat (length inputs) - 1 <= TS_I32_MAX -> last_recv_frame s < sf + Z.of_nat j ->
+  exists s2 s' pre bad' post,
+    eps_header st dr af (eps_touch now s) = Ok s2 /\ eps_header_only now st dr af s s2 /\
+    handle_message dbg now nonce m s = Ok s' /\
+    inputs = pre ++ bad' :: post /\ (length pre <= j)%nat /\
+    to_player_inputs (length (u_handles s)) bad' = None /\
+    accept_inputs dbg sf 0 pre (set_last_input_recv now s2) = Ok (true, s') /\
+    u_send_queue s' = u_send_queue s /\
+    (forall k v h, In (EvInput k v h) (u_event_queue s') ->
+       In (EvInput k v h) (u_event_queue s) \/ k < sf + Z.of_nat (length pre)).
+Proof. exact eps_wrong_size_dropped. Qed.
+
+(* the wrong-size exit in general: whenever the accept loop leaves through it, its state is the one after the
+   loop over the frames before the offending one *)
+Theorem C08_wrong_size_exit : forall dbg start inputs i s s',
+  accept_inputs dbg start i inputs s = Ok (false, s') ->
+  exists pre bad post fr, inputs = pre ++ bad :: post /\
+    accept_inputs dbg start i pre s = Ok (true, s') /\
+    ts_i32_arith dbg (start + i + Z.of_nat (length pre)) = Ok fr /\ last_recv_frame s' < fr /\
+    to_player_inputs (length (u_handles s')) bad = None.
+Proof. exact eps_accept_false. Qed.
+
+(* (f) no panic.  (a)-(e) above give `Ok` outright (kinds a, b, c: every state; d, e: states with eps_wf).
+   In general every Input packet at a reachable endpoint is handled with result Ok in the release profile, and
+   in the dev profile unless start_frame is within MAX_DECODED_INPUTS of i32::MAX or the window is >= 2^30 *)
+Theorem C08_input_total : forall dbg now nonce m st dr sf af bytes s,
+  m_body m = Input st dr sf af bytes -> eps_wf s ->
+  (dbg = true -> sf + Z.of_N MAX_DECODED_INPUTS - 1 <= TS_I32_MAX /\
+                 0 <= u_max_prediction s <= EPS_MAX_WINDOW /\ -1 <= last_recv_frame s <= TS_I32_MAX) ->
+  exists s', handle_message dbg now nonce m s = Ok s'.
+Proof. exact eps_input_total. Qed.
+
+Theorem C08_input_total_release : forall now nonce m st dr sf af bytes s,
+  m_body m = Input st dr sf af bytes -> eps_wf s -> exists s', handle_message false now nonce m s = Ok s'.
+Proof. exact eps_input_total_release. Qed.
+
+(* OUTSIDE the listed kinds (needs a VALID first frame at i32::MAX under the peer's own magic): the second
+   frame's number `start_frame + 1` overflows before its size is looked at - panic in the dev profile, wrap and
+   skip in release.  Confirmed on the real endpoint (p_endpoint_gen.frame_overflow_script). *)
+Theorem C08_frame_overflow_panics_refuted :
+  run true w_new eps_w_overflow = Panic /\
+  exists s evs, run false w_new eps_w_overflow = Ok (s, evs) /\ last_recv_frame s = 2147483647.
+Proof. exact eps_frame_overflow_panics_refuted. Qed.
+
+(* (f) sizes: what one Input packet can make the handler build.  The decoded list and the RLE buffer are
+   bounded by C14_decode_bounded (<= MAX_DECODED_INPUTS inputs, <= MAX_DECODED_LEN bytes); the loop then adds
+   at most one recv_inputs entry and |handles| events per decoded input; at most one message is queued *)
+Theorem C08_accept_loop_sizes : forall dbg start inputs i s b s',
+  accept_inputs dbg start i inputs s = Ok (b, s') -> TS_I32_MIN <= start + i ->
+  eps_others s' = eps_others s /\
+  (NoDup (eps_keys (u_recv_inputs s)) -> NoDup (eps_keys (u_recv_inputs s'))) /\
+  (forall k, In k (eps_keys (u_recv_inputs s)) -> In k (eps_keys (u_recv_inputs s'))) /\
+  (forall k v, In (k, v) (u_recv_inputs s') ->
+     In (k, v) (u_recv_inputs s) \/
+     (last_recv_frame s < k <= start + i + Z.of_nat (length inputs) - 1 /\ TS_I32_MIN <= k <= TS_I32_MAX /\
+      exists j, nth_error inputs j = Some v /\ ts_i32_arith dbg (start + i + Z.of_nat j) = Ok k)) /\
+  last_recv_frame s <= last_recv_frame s' /\
+  (length (u_recv_inputs s') <= length (u_recv_inputs s) + length inputs)%nat /\
+  exists evs, u_event_queue s' = u_event_queue s ++ evs /\
+    (length evs <= length inputs * length (u_handles s))%nat /\
+    forall e, In e evs -> exists k v h, e = EvInput k v h /\ last_recv_frame s < k /\
+                                        In k (eps_keys (u_recv_inputs s')).
+Proof. exact eps_accept_spec. Qed.
+
+Theorem C08_recv_inputs_growth : forall dbg o s s' out, step dbg o s = Ok (s', out) ->
+  (length (u_recv_inputs s') <= length (u_recv_inputs s) + N.to_nat MAX_DECODED_INPUTS)%nat /\
+  u_handles s' = u_handles s /\ u_max_prediction s' = u_max_prediction s /\
+  (eps_inv s -> eps_window_ok s -> eps_shaped dbg (length (u_handles s)) o ->
+   Z.of_nat (length (u_recv_inputs s)) <= eps_ri_bound s -> Z.of_nat (length (u_recv_inputs s')) <= eps_ri_bound s).
+Proof. exact eps_recv_inputs_step. Qed.
+
+(* all exits of handle_message for an Input packet, as an explicit case list *)
+Theorem C08_input_exits : forall dbg now nonce m st dr sf af bytes s s',
+  m_body m = Input st dr sf af bytes -> handle_message dbg now nonce m s = Ok s' ->
+  eps_input_exit dbg now st dr sf af bytes s s'.
+Proof. exact eps_input_exits. Qed.
+
+(* reachable states satisfy eps_wf (and the other parts of eps_inv) *)
+Theorem C08_wf_reachable : forall now magic handles np lp mp timeout notify fps desync dbg ops s evs,
+  run dbg (ep_new now magic handles np lp mp timeout notify fps desync) ops = Ok (s, evs) -> eps_inv s.
+Proof. exact eps_reach_inv. Qed.
+
+(* non-vacuity: the hypotheses of (d) and (e) are met - see the `forged` family of the endpoint correspondence
+   (p_endpoint_gen.gen_forged) for hundreds of concrete instances; here the payload `80` at a fresh Running endpoint *)
+Example C08_undecodable_example :
+  exists s evs, run true w_new w_handshake = Ok (s, evs) /\ eps_wf s /\
+    alookup (eps_decode_frame s 0) (u_recv_inputs s) = Some [0;0;0;0]%N /\
+    Codec.decode true [0;0;0;0]%N [128]%N = Err /\
+    passes_filters s (mkMsg 7 (Input w_status false 0 (-1) [128]%N)) = true.
+Proof. exact eps_undecodable_example. Qed.
+
+(* non-vacuity of (e): a good frame followed by a 3-byte frame - the good one is delivered, no InputAck is queued *)
+Example C08_wrong_size_example :
+  exists s evs, run true w_new (w_handshake ++
+      [OMessage 0 200 (mkMsg 7 (Input w_status false 0 (-1) (Codec.encode [0;0;0;0]%N [[1;0;0;0]%N; [7;7;7]%N])));
+       OPoll 0 200 w_status]) = Ok (s, evs) /\
+    skipn 5 evs = [EvInput 0 1 1] /\ last_recv_frame s = 0 /\
+    Forall (fun m => match m_body m with InputAck _ => False | _ => True end) (u_send_queue s).
+Proof. exact eps_wrong_size_example. Qed.
+
+Check C08_foreign_magic_dropped : forall dbg now nonce m s,
+  u_remote_magic s <> 0 -> m_magic m <> u_remote_magic s ->
+  handle_message dbg now nonce m s = Ok s /\ step dbg (OMessage now nonce m) s = Ok (s, []).
